@@ -287,10 +287,11 @@ def badRoot : Gen.Writes.Root → Bool
   | _ => false
 
 /-- memory a run may write: its own VM record, the scopes / arrays / maps / ranges / argument vectors it
-    allocates itself, the debug channels of a debug VM, and the error value it builds -/
+    allocates itself (directly or through reflect.New), the debug channels of a debug VM, and the error value it builds -/
 def runOwnedMemory : List String :=
   ["vm.VM", "vm.Scope", "[]vm.Scope", "[]interface{}", "map[string]interface{}", "[]int", "[]reflect.Value",
-   "chan int", "chan struct{}", "file.Error"]
+   "chan int", "chan struct{}", "file.Error",
+   "reflect.Value"]   -- a value made by reflect.New in this run (vm.slice copies a non-addressable array before slicing)
 
 open Gen.Writes in
 /-- **Running never modifies the program, the environment or anything else it shares with its caller**:
